@@ -292,12 +292,12 @@ func verifH_C06_multipart() {
 	verifReach("end")
 }
 
-//verif:harness id=C06 tier=quick,thorough witness=end bounds="application/json bodies (concrete texts through the JSON contract model / native encoding/json): 10 texts (objects satisfying or violating the schema, an array, a scalar, truncated text, a value followed by garbage, two values, empty, whitespace only, null) against {type: object, required [a], properties {a: integer minimum symbolic}}; accepted exactly when the text is one JSON value that satisfies the schema"
+//verif:harness id=C06 tier=quick,thorough witness=end bounds="application/json bodies (concrete texts through the JSON contract model / native encoding/json): 15 texts (objects satisfying or violating the schema, an array, a scalar, truncated text, a value followed by garbage / by a stray closing brace or bracket / by a comma / by white space, two values, empty, whitespace only, null) against {type: object, required [a], properties {a: integer minimum symbolic}}; accepted exactly when the text is one JSON value that satisfies the schema"
 func verifH_C06_json_texts() {
 	min := verifNondetFloat64("min")
 	verifAssume(min == min)
 	obj := &openapi3.Schema{Type: &openapi3.Types{"object"}, Required: []string{"a"}, Properties: openapi3.Schemas{"a": {Value: &openapi3.Schema{Type: &openapi3.Types{"integer"}, Min: &min}}}}
-	texts := []string{`{"a":5}`, `{"a":-2}`, `{"b":1}`, `[1]`, `7`, `{"a":5`, `{"a":5} trailing`, `{"a":5}{"a":6}`, ``, `  `, `null`}
+	texts := []string{`{"a":5}`, `{"a":-2}`, `{"b":1}`, `[1]`, `7`, `{"a":5`, `{"a":5} trailing`, `{"a":5}{"a":6}`, ``, `  `, `null`, `{"a":5}}`, `{"a":5}]`, `{"a":5},`, `{"a":5} `+"\n"}
 	k := verifChoose("text", len(texts))
 	rb := &openapi3.RequestBody{Required: true, Content: openapi3.Content{"application/json": &openapi3.MediaType{Schema: &openapi3.SchemaRef{Value: obj}}}}
 	op := &openapi3.Operation{RequestBody: &openapi3.RequestBodyRef{Value: rb}}
@@ -309,6 +309,8 @@ func verifH_C06_json_texts() {
 		want = 5 >= min
 	case 1:
 		want = -2 >= min
+	case 14:
+		want = 5 >= min // white space may follow the value
 	}
 	verifAssert((err == nil) == want, "C06 json texts: a body is accepted exactly when it is one JSON value satisfying the schema")
 	verifReach("end")
@@ -382,9 +384,10 @@ func verifH_C06_form_array() {
 	verifReach("end")
 }
 
-//verif:harness id=C06 tier=quick,thorough witness=end bounds="per-property encodings of url-encoded bodies: schema {l: array of integers, s: string}; encoding of l with style unset / form / spaceDelimited / pipeDelimited x explode unset / true / false (unset = form, exploded); l carries 1-2 items of one symbolic decimal digit each, serialised by the style's rule (l=1&l=2 | l=1,2 | l=1%202 | l=1|2); the decoder returns the array the body encodes, and ValidateRequestBody accepts exactly when the item count meets a symbolic maxItems"
+//verif:harness id=C06 tier=quick,thorough witness=end bounds="per-property encodings of url-encoded bodies: schema {l: array of integers / numbers / strings, s: string}; encoding of l with style unset / form / spaceDelimited / pipeDelimited x explode unset / true / false (unset = form, exploded); l carries 1-2 items of one symbolic decimal digit each, serialised by the style's rule (l=1&l=2 | l=1,2 | l=1%202 | l=1|2); the decoder returns the array the body encodes, and ValidateRequestBody accepts exactly when the item count meets a symbolic maxItems"
 func verifH_C06_form_encodings() {
-	intS := &openapi3.SchemaRef{Value: &openapi3.Schema{Type: &openapi3.Types{"integer"}}}
+	itemType := []string{"integer", "number", "string"}[verifChoose("itemType", 3)]
+	intS := &openapi3.SchemaRef{Value: &openapi3.Schema{Type: &openapi3.Types{itemType}}}
 	maxItems := uint64(verifChoose("maxItems", 3))
 	arr := &openapi3.SchemaRef{Value: &openapi3.Schema{Type: &openapi3.Types{"array"}, Items: intS, MaxItems: &maxItems}}
 	schema := &openapi3.SchemaRef{Value: &openapi3.Schema{Type: &openapi3.Types{"object"}, Properties: openapi3.Schemas{"l": arr, "s": {Value: &openapi3.Schema{Type: &openapi3.Types{"string"}}}}}}
@@ -408,7 +411,14 @@ func verifH_C06_form_encodings() {
 	for i := range items {
 		d := verifNondetByteIn("d", "0123456789")
 		items[i] = string([]byte{d})
-		want[i] = int64(d - '0')
+		switch itemType {
+		case "integer":
+			want[i] = int64(d - '0')
+		case "number":
+			want[i] = float64(d - '0')
+		default:
+			want[i] = items[i]
+		}
 	}
 	body := "s=x"
 	if explode {
